@@ -90,7 +90,8 @@ class _Match(Generic[AnyStr]):
         split = (RE_WIN_SPLIT if is_win else RE_SPLIT)[self.ptype]  # type: Any
         strip = (RE_WIN_STRIP if is_win else RE_STRIP)[self.ptype]  # type: Any
 
-        end = len(filename) - 1
+        # End of the name, not counting a trailing separator (only directories are given one).
+        end = len(filename) - (1 if split.match(filename[-1:]) else 0)
         base = None
         m = pattern.fullmatch(filename)
         if m:
